@@ -13,6 +13,7 @@ import Mfi.Lemmas.AccL
 import Mfi.Props.C10
 import Mfi.Lemmas.WorldL
 import Mfi.Lemmas.WorldTxL
+import Mfi.Props.C05
 
 namespace Mfi.Props.C11
 open Mfi Mfi.Tx Mfi.Gen Mfi.Props.C10
@@ -342,6 +343,33 @@ theorem world_tx_borrow_is_backed {w w' : WState} {tx : List TOp} (h : w.runTx t
   · right
     obtain ⟨_, _, _, _, _, _, ps, hps, hc⟩ := world_end_flashloan_enforces_health hf
     exact ⟨j, s, wj, a, ps, hij, hj, ha, hps, hc⟩
+
+/-- **world_tx_liquidator_is_backed**: every classic liquidation of a committed transaction (started with nobody in a flash loan)
+    leaves the LIQUIDATOR backed by a passed initial-margin check: its own, on the liquidator's portfolio as the liquidation left
+    it, when the liquidator was not in a flash loan; otherwise the one of the liquidator's `end_flashloan` further down the same
+    transaction. The liquidatee is never inside a flash loan (`C05.world_liquidate_spec`: liquidation is impossible while the
+    flag is set). -/
+theorem world_tx_liquidator_is_backed {w w' : WState} {tx : List TOp} (h : w.runTx tx = some w')
+    (h0 : ∀ (k : Nat) (a : AcctV), w.accts[k]? = some a → inFlash a = false)
+    {i qi ei abi lbi signer : Nat} {amount : Int} (hi : tx[i]? = some (.ix (.liquidate qi ei abi lbi signer amount))) :
+    ∃ (wi : WState) (lq le : AcctV) (ab lb : WBank) (o : LiqOutW), wi.accts[qi]? = some lq ∧ wi.accts[ei]? = some le ∧
+      wi.banks[abi]? = some ab ∧ wi.banks[lbi]? = some lb ∧ liquidate (wi.liqCtx lq le ab lb signer) amount = .ok o ∧
+      hasFlag le.flags ACCOUNT_IN_FLASHLOAN = false ∧
+      ((∃ qs, portfolio2 (wi.liqCtx lq le ab lb signer).risk o.lqSlots ab.v.key o.assetBooks lb.v.key o.liabBooks = .ok qs ∧
+          Risk.checkInitHealth qs = .ok ()) ∨
+       (∃ (j s : Nat) (wj : WState) (a : AcctV) (ps : List Risk.Pos), i < j ∧ tx[j]? = some (.endFlash qi s) ∧ wj.accts[qi]? = some a ∧
+          portfolio (wj.actx a s) a.slots noBank.books = .ok ps ∧ Risk.checkInitHealth ps = .ok ())) := by
+  obtain ⟨wi, lq, le, ab, lb, o, hq, he, hab, hlb, ho, hfl⟩ := tx_liquidate_at h h0 hi
+  have hspec := Mfi.Props.C05.world_liquidate_spec ho
+  obtain ⟨_, _, _, _, _, hle, a, l, ps, pre, ap, lp, ps', lp', post, _, _, _, _, _, _, _, _, _, _, _, _, _, hq'⟩ := hspec
+  refine ⟨wi, lq, le, ab, lb, o, hq, he, hab, hlb, ho, hle, ?_⟩
+  rcases hq' with hflash | ⟨qs, hqs, hc⟩
+  · right
+    obtain ⟨j, s, wj, a', f, hij, hj, ha', hf⟩ := hfl hflash
+    obtain ⟨_, _, _, _, _, _, ps2, hps2, hc2⟩ := world_end_flashloan_enforces_health hf
+    exact ⟨j, s, wj, a', ps2, hij, hj, ha', hps2, hc2⟩
+  · left
+    exact ⟨qs, hqs, hc⟩
 
 /-- **world_tx_withdraw_is_backed**: the same for every withdrawal of a committed transaction made outside receivership (inside
     receivership the bracket's own end enforces health: C10) -/
